@@ -40,3 +40,67 @@ def impl_lex(text: str, filename=None) -> dict:
             break
         toks.append([t.type, t.value, t.lineno, t.lexpos])
     return {"toks": toks, "err": err, "done": True}
+
+
+def tok_json(t):
+    return [t.type, t.value, loc_json(t.location)]
+
+
+def err_json(e: BaseException) -> dict:
+    """canonical form of an exception, mirroring `Driver.jerr`"""
+    if isinstance(e, L.LexError):
+        tok = e.tok
+        return {"k": "lex", "msg": e.args[0], "value": tok.value, "loc": loc_json(tok.location)}
+    if isinstance(e, CxxParseError):
+        tok = e.tok
+        return {"k": "parse", "msg": e.args[0], "tok": tok_json(tok) if tok is not None else None}
+    if isinstance(e, EOFError):
+        return {"k": "eof"}
+    return {"k": "py", "cls": type(e).__name__, "msg": str(e)}
+
+
+def impl_stream(text: str, ops, filename=None) -> dict:
+    """run a sequence of TokenStream operations on a LexerTokenStream over `text`"""
+    outs = []
+    err = None
+    got = []
+    try:
+        s = L.LexerTokenStream(filename, text)
+        for op in ops:
+            name, args = op[0], op[1:]
+            if name == "token":
+                t = s.token()
+                got.append(t)
+                outs.append(tok_json(t))
+            elif name in ("token_eof_ok", "token_newline_eof_ok"):
+                t = getattr(s, name)()
+                if t is not None:
+                    got.append(t)
+                outs.append(tok_json(t) if t is not None else None)
+            elif name in ("token_if", "token_if_val", "token_if_not"):
+                t = getattr(s, name)(*args)
+                if t is not None:
+                    got.append(t)
+                outs.append(tok_json(t) if t is not None else None)
+            elif name == "token_peek_if":
+                outs.append(bool(s.token_peek_if(*args)))
+            elif name == "return_last":
+                k = min(int(args[0]) if args else 1, len(got))
+                back = got[len(got) - k :]
+                del got[len(got) - k :]
+                if k == 1:
+                    s.return_token(back[0])
+                else:
+                    s.return_tokens(back)
+                outs.append(k)
+            elif name == "current_location":
+                outs.append(loc_json(s.current_location()))
+            elif name == "get_doxygen":
+                outs.append(s.get_doxygen())
+            elif name == "get_doxygen_after":
+                outs.append(s.get_doxygen_after())
+            else:
+                raise ValueError("bad op " + name)
+    except Exception as e:  # noqa
+        err = err_json(e)
+    return {"outs": outs, "err": err}
